@@ -6,7 +6,7 @@
 From Coq Require Import ZArith List Bool String.
 From Coq Require Extraction.
 From Coq Require Import ExtrOcamlBasic ExtrOcamlString.
-From HV Require Import Gen.GenUnsatCore Gen.GenCoreAppend Spec.CacheSpec Model.CacheModel.
+From HV Require Import Gen.GenUnsatCore Gen.GenCoreAppend Gen.GenCacheUsers Spec.CacheSpec Model.CacheModel Model.CacheTestModel.
 Import ListNotations.
 Open Scope Z_scope.
 
@@ -130,6 +130,97 @@ Definition c16_verdict (a : list Z) : list Z :=
   | _ => []
   end.
 
+(* one whole test through run_test's path loop (Model/CacheTestModel.v), the solver answering each
+   assertion query before the next path is taken.
+   [cache; n; path_1 .. path_n], path = kind (0 assert, 1 stuck, 2 normal, 3 other) :: ids ++
+   reply_abstract ++ reply_refined ++ [refine_changes]
+   -> [verdict; stuck; normal] ++ (n_outs :: replies) ++ (n_consumers :: answered-without-solver flags) ++ cores *)
+Definition tq := query sid Z.
+
+Fixpoint take_paths (n : nat) (idx : Z) (l : list Z) : list (pkind * tq * (rep * rep * bool)) :=
+  match n with
+  | O => []
+  | S n' =>
+      match l with
+      | [] => []
+      | k :: r =>
+          let (ids, r1) := take_strlist r in
+          let (ra, r2) := take_reply r1 in
+          let (rr, r3) := take_reply r2 in
+          let rc := match r3 with c :: _ => negb (c =? 0) | [] => false end in
+          let kind := if k =? 0 then KAssert else if k =? 1 then KStuck else if k =? 2 then KNormal else KOther in
+          (kind, map (fun i => (i, idx)) ids, (ra, rr, rc)) :: take_paths n' (idx + 1) (tl r3)
+      end
+  end.
+
+Definition c16_test (a : list Z) : list Z :=
+  match a with
+  | cache :: n :: r =>
+      let ps := take_paths (Z.to_nat n) 0 r in
+      let tab := map snd ps in
+      let entry (q : tq) : rep * rep * bool :=
+        match q with
+        | (_, idx) :: _ => nth (Z.to_nat idx) tab (Err, Err, false)
+        | [] => (Err, Err, false)
+        end in
+      let low := fun (refined : bool) (q : tq) => let '(ra, rr, _) := entry q in if refined then rr else ra in
+      let rc := fun (q : tq) => let '(_, _, c) := entry q in c in
+      let s := test_run sid str_eqb Z Z low rc (negb (cache =? 0)) (map fst ps) in
+      [match verdict_of sid Z (t_outs sid Z s) (t_stuck sid Z s) (t_normal sid Z s) with
+       | VFail => 0 | VError => 1 | VTimeout => 2 | VStuck => 3 | VRevertAll => 4 | VPass => 5
+       end; Z.of_nat (t_stuck sid Z s); Z.of_nat (t_normal sid Z s)]
+      ++ Z.of_nat (List.length (t_outs sid Z s)) :: List.concat (map enc_reply (t_outs sid Z s))
+      ++ Z.of_nat (List.length (t_skipped sid Z s)) :: map (fun b : bool => if b then 1 else 0) (t_skipped sid Z s)
+      ++ enc_cores (t_cores sid Z s)
+  | _ => []
+  end.
+
+(* one whole test under a given schedule of the solver pool (sched_run).
+   [cache; m; ev_1 .. ev_m; n; path_1 .. path_n], ev = 0 i (the main loop takes path i of the table)
+   | 1 j (a worker enters solve_end_to_end for the j-th path taken) | 2 j (its callback runs)
+   -> [verdict (9: queries still pending); stuck; normal] ++ (n_outs :: replies in callback order)
+      ++ [n_pending] ++ cores *)
+Fixpoint take_events (m : nat) (ps : list (tpath sid Z)) (l : list Z) : list (tevent sid Z) :=
+  match m with
+  | O => []
+  | S m' =>
+      match l with
+      | k :: i :: r =>
+          (if k =? 0 then TPath (nth (Z.to_nat i) ps (KOther, []))
+           else if k =? 1 then TStart (Z.to_nat i) else TCb (Z.to_nat i)) :: take_events m' ps r
+      | _ => []
+      end
+  end.
+
+Definition c16_sched (a : list Z) : list Z :=
+  match a with
+  | cache :: m :: r =>
+      let k := (2 * Z.to_nat m)%nat in
+      match skipn k r with
+      | n :: r' =>
+          let ps := take_paths (Z.to_nat n) 0 r' in
+          let tab := map snd ps in
+          let entry (q : tq) : rep * rep * bool :=
+            match q with
+            | (_, idx) :: _ => nth (Z.to_nat idx) tab (Err, Err, false)
+            | [] => (Err, Err, false)
+            end in
+          let low := fun (refined : bool) (q : tq) => let '(ra, rr, _) := entry q in if refined then rr else ra in
+          let rc := fun (q : tq) => let '(_, _, c) := entry q in c in
+          let evs := take_events (Z.to_nat m) (map fst ps) (firstn k r) in
+          let s := sched_run sid str_eqb Z Z low rc (negb (cache =? 0)) evs in
+          let t := s_t sid Z Z s in
+          [match sched_verdict sid str_eqb Z Z low rc (negb (cache =? 0)) evs with
+           | Some VFail => 0 | Some VError => 1 | Some VTimeout => 2 | Some VStuck => 3 | Some VRevertAll => 4 | Some VPass => 5
+           | None => 9
+           end; Z.of_nat (t_stuck sid Z t); Z.of_nat (t_normal sid Z t)]
+          ++ Z.of_nat (List.length (t_outs sid Z t)) :: List.concat (map enc_reply (t_outs sid Z t))
+          ++ Z.of_nat (List.length (s_jobs sid Z Z s)) :: enc_cores (t_cores sid Z t)
+      | [] => []
+      end
+  | _ => []
+  end.
+
 Definition table : list (string * (list Z -> list Z)) :=
   [ ("c16_step"%string, c16_step);
     ("c16_check"%string, c16_check);
@@ -137,6 +228,8 @@ Definition table : list (string * (list Z -> list Z)) :=
     ("c16_named"%string, c16_named);
     ("c16_dump"%string, c16_dump);
     ("c16_isspace"%string, c16_isspace);
-    ("c16_verdict"%string, c16_verdict) ].
+    ("c16_verdict"%string, c16_verdict);
+    ("c16_test"%string, c16_test);
+    ("c16_sched"%string, c16_sched) ].
 
 Extraction "_build/C16/entries.ml" table.
